@@ -293,6 +293,47 @@ theorem c01_handler_failure_is_pae (env : Env) (hwf : WF2 env = true) (r : Reg)
   | beyond k => rw [hw] at hr; simp [resOfWalk] at hr
   | notAccess k => rw [hw] at hr; simp [resOfWalk] at hr
 
+/-- **An accessor written with glom.** When the accessor of a segment (a property, a
+    `__getattr__`, a registered handler) makes a nested glom call and that call fails, its
+    error — the inner PathAccessError, or any other GlomError — is the *lookup failure of that
+    segment*: with the exception table of this run, an attribute step and a plain segment turn
+    the inner PathAccessError into `fail` (so, by `c01_pae_first`, the model raises the outer
+    PathAccessError with the outer index, carrying the inner error), and a plain segment does so
+    for every GlomError class. -/
+theorem c01_nested_glom_error_wrapped (uc : ClassTable) (info : List (String × ClsInfo))
+    (ue : ClassTable) (hsem : String → Heap → Val → Val → Acc) :
+    (∀ op ∈ [".", "P"], classify (genEnv2 uc info ue hsem) op (.err ⟨"PathAccessError"⟩) =
+        .fail ⟨"PathAccessError"⟩) ∧
+    (∀ c ∈ ["GlomError", "PathAccessError", "UnregisteredTarget", "BadSpec", "CoalesceError",
+            "MatchError", "TypeMatchError", "CheckError", "FoldError", "PathAssignError", "PathDeleteError"],
+      classify (genEnv2 uc info ue hsem) "P" (.err ⟨c⟩) = .fail ⟨c⟩) := by
+  have hm : ∀ c, (Generated.excTable.find? (·.1 == c)).isSome = true →
+      ClassTable.mro (Generated.excTable ++ ue) c = ClassTable.mro Generated.excTable c := by
+    intro c hc
+    unfold ClassTable.mro
+    rw [List.find?_append]
+    cases hf : Generated.excTable.find? (·.1 == c) with
+    | none => rw [hf] at hc; contradiction
+    | some p => simp
+  have hfail : ∀ (op c : String), (Generated.excTable.find? (·.1 == c)).isSome = true →
+      (lookupKinds op).any (fun b => ClassTable.isSub Generated.excTable c b) = true →
+      classify (genEnv2 uc info ue hsem) op (.err ⟨c⟩) = .fail ⟨c⟩ := by
+    intro op c hc hk
+    have : (genEnv2 uc info ue hsem).isKind (lookupKinds op) ⟨c⟩ = true := by
+      simp only [Env.isKind, genEnv2, ClassTable.isSub, hm c hc]
+      exact hk
+    simp [classify, this]
+  constructor
+  · intro op hop
+    simp only [List.mem_cons, List.not_mem_nil, or_false] at hop
+    rcases hop with rfl | rfl
+    · exact hfail _ _ (by decide) (by decide)
+    · exact hfail _ _ (by decide) (by decide)
+  · intro c hc
+    simp only [List.mem_cons, List.not_mem_nil, or_false] at hc
+    rcases hc with rfl | rfl | rfl | rfl | rfl | rfl | rfl | rfl | rfl | rfl | rfl <;>
+      exact hfail _ _ (by decide) (by decide)
+
 /-- A dotted string denotes the same path as `Path(seg₀, …, segₙ)`: for segments
     free of `'.'` — and, when `PATH_STAR` is on, other than `*` / `**` —
     `Path.from_text('.'.join(segs))` builds exactly the steps of `Path(*segs)`; with
@@ -507,6 +548,13 @@ example : walk2 exEnv defaultTable exHeap [(".", .str "__class__"), (".", .str "
 example : walk2 exEnv defaultTable exHeap [("P", .str "nope")] 0 (.ref 5) = .ok (.int 0) := by decide
 example : walk2 exEnv defaultTable exHeap [(".", .str "b"), ("P", .str "a")] 0 (.ref 4) = .ok (.ref 1) := by
   decide
+/-- an accessor written with glom: the handler registered for Rec reads the private table with a
+    nested glom call; a missing key is the inner PathAccessError, carried by the *outer* failure at
+    the outer index (here 1) — not the inner path, not the inner index 0 -/
+example : walk2 exEnv (defaultTable.register "Rec" (some (.glomTable "_tab")) false) exHeap
+    [("[", .int 1), ("P", .str "x"), ("P", .int 0)] 0 (.ref 1) = .ok (.int 1) := by decide
+example : walk2 exEnv (defaultTable.register "Rec" (some (.glomTable "_tab")) false) exHeap
+    [("[", .int 1), ("P", .str "nope"), ("P", .int 0)] 0 (.ref 1) = .fail 1 ⟨"PathAccessError"⟩ := by decide
 /-- a plain segment on a namedtuple is an index, so a field name is a ValueError of `int()` -/
 example : walk2 exEnv defaultTable exHeap [("P", .str "b")] 0 (.ref 4) = .fail 0 (exc "ValueError") := by
   decide
